@@ -48,15 +48,24 @@ def judge(rec, price, ops):
     return []
 
 
-# ---- the statement handed to the extracted Coq judge (Spec/Judges.v: stats_b <=> StatsAgree; Properties/Tie.v
-# Tie_judge_stats*): one per history, on the last statistics the implementation reported and the events up to there.
-# Events: A|<order>   M|<qty>|<taker>|<txs>|<remaining>|<complete>   U|<update>|<outcome>.  Read-only calls are
-# left out (an ORead event counts 0 in every sum of Spec/StatsSpec.v); a history with any other operation (rebuild,
-# fork, external data) is outside `no_rebuild` and gets no statement.
+# ---- the statement handed to the extracted Coq judge (Spec/Judges.v: stats_b <=> StatsAgree, stats_rebuild_b <=>
+# StatsAgreeR; Properties/Tie.v Tie_judge_stats*): one per history, on the last statistics the implementation reported
+# and the events up to there.
+# Events: A|<order>   M|<qty>|<taker>|<txs>|<remaining>|<complete>   U|<update>|<outcome>   and, for a rebuild of the
+# level from its own snapshot-like (snap, ref, pkg, pjson) / data-like (data, text) form,   B|snap|<listing>
+# B|data|<listing>   with <listing> = the implementation's listing of the level just before the rebuild.
+# Read-only calls are left out (an ORead event counts 0 in every sum of Spec/StatsSpec.v).  A history without a rebuild
+# gets a `stats` statement (C15_stats_mod), a history with rebuilds a `statsr` statement (C15_across_rebuilds_mod: what
+# the last rebuild recorded + the events since); a history with any other operation (fork, external data, a rebuild
+# that failed) gets no statement.
 
-def stats_stmt_ok(price, added, removed, quantity, value, evs):
-    """python restatement of StatsAgree (Spec/Judges.v) on the event tokens of one history"""
+SNAP_LIKE = ("snap", "ref", "pkg", "pjson")     # harness/src/level.rs via_family: these restart at 0/0/0/0; data, text re-add
+
+
+def _event_sums(price, evs):
+    """counts / sums of Spec/StatsSpec.v over event tokens (no rebuild among them) -> (adds, rems, qty, val, prices ok)"""
     adds = rems = qty = val = 0
+    ok = True
     for e in evs:
         f = e.split("|")
         if f[0] == "A":
@@ -65,19 +74,41 @@ def stats_stmt_ok(price, added, removed, quantity, value, evs):
             u = f[1].split(":")
             if f[2].startswith("ok:") and f[2] != "ok:-" and (u[0] == "C" or (u[0] in ("UP", "UPQ", "RP") and int(u[2]) != price)):
                 rems += 1
-        else:
+        elif f[0] == "M":
             for t in gen.parse_list(f[3]):
                 x = t.split("/")
                 qty += int(x[4])
                 val += int(x[4]) * int(x[3])
                 if int(x[3]) != price:
-                    return False
-    return (added, removed, quantity, value) == (adds % W, rems % W, qty % W, val % W)
+                    ok = False
+    return adds, rems, qty, val, ok
+
+
+def stats_stmt_ok(price, added, removed, quantity, value, evs):
+    """python restatement of StatsAgree (Spec/Judges.v) on the event tokens of one history"""
+    adds, rems, qty, val, ok = _event_sums(price, evs)
+    return ok and (added, removed, quantity, value) == (adds % W, rems % W, qty % W, val % W)
+
+
+def statsr_stmt_ok(price, added, removed, quantity, value, evs):
+    """python restatement of StatsAgreeR (Spec/Judges.v): the counters are what the LAST rebuild recorded (one order added
+    per order listed to a data-like rebuild, nothing for a snapshot-like one) plus the counts / sums over the events
+    since it; every transaction of the whole history carries the level price"""
+    last = max([k for k, e in enumerate(evs) if e.startswith("B|")], default=None)
+    base, since = 0, evs
+    if last is not None:
+        f = evs[last].split("|")
+        base = len(gen.parse_list(f[2])) if f[1] == "data" else 0
+        since = evs[last + 1:]
+    adds, rems, qty, val, _ = _event_sums(price, since)
+    ok = _event_sums(price, [e for e in evs if not e.startswith("B|")])[4]
+    return ok and (added, removed, quantity, value) == ((base + adds) % W, rems % W, qty % W, val % W)
 
 
 def statements(rec, price, ops):
     """-> [(opindex, JUDGE query, text, verdict of the python restatement on exactly this statement)]"""
     evs, last = [], None
+    vec = "[]"          # the implementation's latest listing of the level (a new level is empty)
     for o in rec["ops"]:
         I = o["I"]
         if I in ("panic", "timeout"):
@@ -99,18 +130,30 @@ def statements(rec, price, ops):
             evs.append("M|%s|%s|%s|%s|%s" % (q, taker, d["txs"], d["rem"], d["complete"]))
         elif op.startswith("READ") or op == "SNAP":
             continue
+        elif op.startswith("REBUILD "):
+            if d.get("built") != "ok":
+                break       # the level was not replaced: judged up to here
+            evs.append("B|%s|%s" % ("snap" if op.split(" ")[1] in SNAP_LIKE else "data", vec))
         else:
             return []
+        if "vec" in d:
+            vec = d["vec"]
         if "st" in d:
             last = (o["i"], op, d["st"], len(evs))
     if not last:
         return []
     i, op, st, n = last
     a, r, _, sq, sv = [int(x) for x in st.split("/")]
-    return [(i, "stats %d %d %d %d %d %s" % (price, a, r, sq, sv, " ".join(evs[:n])),
+    evs = evs[:n]
+    if any(e.startswith("B|") for e in evs):
+        return [(i, "statsr %d %d %d %d %d %s" % (price, a, r, sq, sv, " ".join(evs)),
+                 "statistics after `%s` (added/removed/quantity/value = %d/%d/%d/%d) are not what the last rebuild recorded plus the counts and sums over the events since it" % (
+                     op[:50], a, r, sq, sv),
+                 statsr_stmt_ok(price, a, r, sq, sv, evs))]
+    return [(i, "stats %d %d %d %d %d %s" % (price, a, r, sq, sv, " ".join(evs)),
              "statistics after `%s` (added/removed/quantity/value = %d/%d/%d/%d) are not the counts and sums over the events of the history" % (
                  op[:50], a, r, sq, sv),
-             stats_stmt_ok(price, a, r, sq, sv, evs[:n]))]
+             stats_stmt_ok(price, a, r, sq, sv, evs))]
 
 
 _STMTS = []      # (price, ops, opindex, query, python verdict) of the statements judged in this run
@@ -124,6 +167,12 @@ def coq_queries(rec, price, ops):
     return out
 
 
+def judges_agree_c15(ck):
+    nr = sum(1 for x in _STMTS if x[3].startswith("statsr "))
+    ck.extra["judged_statements"] = dict(stats_no_rebuild=len(_STMTS) - nr, statsr_across_rebuilds=nr)
+    judges_agree(ck, _STMTS, "StatsAgree / StatsAgreeR, per history; %d with rebuilds" % nr)
+
+
 def corr_filter(text):
     return " st " in text or "panic" in text or "model=" in text
 
@@ -133,8 +182,7 @@ def make_cases(rng, tier):
     # the property's domain: positive quantities, orders priced at the level price, no rebuild
     cs = histories(rng, n, allow_zero=False, at_level_price=True, rebuilds=False, forks=False)
     # levels restored from a snapshot / serialized form carry resting orders and fresh statistics: cancels and matches
-    # BEFORE the first add, and adds after them (judged by the python restatement only; the Coq statement is for
-    # histories without a rebuild)
+    # BEFORE the first add, and adds after them (Coq statement: C15_across_rebuilds_mod, judge `statsr`)
     for i in range(n // 5):
         g = lvl.HistGen(rng, allow_zero=False, at_level_price=True, rebuilds=False, forks=False, reads=False)
         ops = g.history(rng.randint(3, 12))
@@ -151,6 +199,23 @@ def make_cases(rng, tier):
         tail.append("ADD " + g.new_order())
         tail += ["UPD " + g.update(), "MATCH 5 u7200"]
         cs.append((g.price, ops + tail))
+    # several rebuilds of both kinds in one history (the statistics follow the LAST one), some back to back, some as
+    # the very first or the very last operation
+    for i in range(n // 10):
+        g = lvl.HistGen(rng, allow_zero=False, at_level_price=True, rebuilds=False, forks=False, reads=True)
+        g.prewarm = False       # no GEN operation in the middle of a history
+        ops = ["REBUILD " + rng.choice(lvl.VIAS)] if i % 7 == 0 else []
+        for k in range(rng.randint(2, 4)):
+            ops += g.history(rng.randint(1, 8))
+            ops.append("REBUILD " + lvl.VIAS[(i + k) % len(lvl.VIAS)])
+            if rng.random() < 0.2:
+                ops.append("REBUILD " + rng.choice(lvl.VIAS))
+        if i % 5:
+            for _ in range(rng.randint(1, 5)):
+                x = rng.random()
+                ops.append("UPD " + g.update() if x < 0.35 else
+                           "MATCH %d u%d" % (rng.choice([1, 3, 8, 40]), 7300 + len(ops)) if x < 0.75 else "ADD " + g.new_order())
+        cs.append((g.price, ops))
     return cs
 
 
@@ -208,4 +273,4 @@ def run(tier, seed, replay=None):
             return concprop.replay_conc("C15", tier, seed, r, lambda rec, prog, info: conc.judge_stats(rec, prog, info))
     return run_property("C15", tier, seed, replay, make_cases=make_cases, judge=judge, corr_filter=corr_filter,
                         nontrivial=nontrivial_default, coq_queries=coq_queries,
-                        extra_obligations=lambda ck: (judges_agree(ck, _STMTS, "StatsAgree, per history"), conc_part(ck)))
+                        extra_obligations=lambda ck: (judges_agree_c15(ck), conc_part(ck)))
